@@ -60,6 +60,10 @@ def structures(tier):
             sts.append({'name': n, 'after': 'BSC_socket'})
             if tier == 'thorough':
                 sts.append({'name': n, 'after': 'BSC_open'})
+    # the same decoder on other words first (tables completed or memoised on first use)
+    for n in sweep.decoder_names():
+        if tier == 'thorough' or sweep.weight({'name': n}) == 1:
+            sts.append({'name': n, 'after': n})
     return sts
 
 
@@ -276,6 +280,8 @@ class _Copy:
             sys.modules.update(saved)
             self.import_used = set(_state['used'])
             _state['used'], _state['overrides'] = prev_used, prev_ov
+        # process-level state of this copy as it is right after import (restored whenever the copy is entered)
+        self.snap = sweep.snapshot_modules([m for m in self.modules.values() if m is not None])
         # which from-imported host objects can be recognised at run time (classes, tables), and as what kind
         self.objects = {}
         for m in self.modules.values():
@@ -287,6 +293,7 @@ class _Copy:
     def __enter__(self):
         self.saved = _purge()
         sys.modules.update(self.modules)
+        sweep.restore_modules(self.snap)
         self.prev_ov = _state['overrides']
         _state['overrides'] = self.overrides
         return self
